@@ -13,6 +13,7 @@ import (
 	"os"
 	"path/filepath"
 	"strconv"
+	"strings"
 
 	"github.com/zerx-lab/wordZero/pkg/document"
 	"github.com/zerx-lab/wordZero/pkg/markdown"
@@ -43,9 +44,14 @@ func defsStyleType(id string) style.StyleType {
 
 // ---------------------------------------------------------------- in-memory projection
 
+// defsBasedIds: the style ids the behaviour being executed adds through the style API; the projections
+// report what these styles are based on (in memory and in the saved styles part).
+var defsBasedIds = map[string]bool{}
+
 type defsMemObs struct {
 	reg    []string
 	ver    []map[string]interface{}
+	based  []map[string]interface{}
 	mrefs  []string
 	mnums  []int
 	mnotes []map[string]interface{}
@@ -55,7 +61,7 @@ type defsMemObs struct {
 // defsMem projects the in-memory document. A plain save does not touch the body, so the body part of
 // the previous projection (prev) is reused for it; the registry is always read afresh.
 func defsMem(d *document.Document, prev *defsMemObs) defsMemObs {
-	o := defsMemObs{reg: []string{}, ver: []map[string]interface{}{}, mrefs: []string{}, mnums: []int{}, mnotes: []map[string]interface{}{}}
+	o := defsMemObs{reg: []string{}, ver: []map[string]interface{}{}, based: []map[string]interface{}{}, mrefs: []string{}, mnums: []int{}, mnotes: []map[string]interface{}{}}
 	if d == nil {
 		return o
 	}
@@ -66,6 +72,9 @@ func defsMem(d *document.Document, prev *defsMemObs) defsMemObs {
 				if v := defsVerOfSz(st.RunPr.FontSize.Val); v != "base" {
 					o.ver = append(o.ver, map[string]interface{}{"id": st.StyleID, "v": v})
 				}
+			}
+			if defsBasedIds[st.StyleID] && st.BasedOn != nil && st.BasedOn.Val != "" {
+				o.based = append(o.based, map[string]interface{}{"id": st.StyleID, "on": st.BasedOn.Val})
 			}
 		}
 	}
@@ -91,11 +100,59 @@ func defsMem(d *document.Document, prev *defsMemObs) defsMemObs {
 	return o
 }
 
-func runDefsStep(d **document.Document, op Op, i int) string {
+// defsWorld: the documents alive in the process. Operations act on doc; "Switch" exchanges the two
+// (the other document is a new one the first time).
+type defsWorld struct {
+	doc, alt *document.Document
+}
+
+// defsNoteText: note texts of different lengths (the step index decides), so that the notes parts of two
+// documents with the same number of notes still differ in size.
+func defsNoteText(tok string, i int) string {
+	return "text of " + tok + strings.Repeat(" more", i%4)
+}
+
+func runDefsStep(w *defsWorld, op Op, i int) string {
 	tok := fmt.Sprintf("T%d", i)
-	doc := *d
-	sm := doc.GetStyleManager()
+	doc := w.doc
+	d := &w.doc
+	// the style manager is only fetched by the operations that need it (a caller that never touches
+	// styles never calls GetStyleManager)
+	var sm *style.StyleManager
 	switch op.Name() {
+	case "AddStyle", "ModifyStyle", "RemoveStyle":
+		sm = doc.GetStyleManager()
+	}
+	switch op.Name() {
+	case "Switch":
+		if w.alt == nil {
+			w.alt = document.New()
+		}
+		w.doc, w.alt = w.alt, w.doc
+	case "Look":
+		switch op.Str("what") {
+		case "body":
+			if doc.Body != nil {
+				_ = doc.Body.GetParagraphs()
+				_ = doc.Body.GetTables()
+			}
+			_ = doc.ListHeadings()
+			_ = doc.GetHeadingCount()
+			_ = doc.GetFootnoteCount()
+			_ = doc.GetEndnoteCount()
+		case "parts":
+			n := 0
+			for _, b := range doc.GetParts() {
+				n += len(b)
+			}
+			_ = n
+		default:
+			m := doc.GetStyleManager()
+			_ = m.GetAllStyles()
+			_ = m.StyleExists("Heading1")
+			_ = m.GetStyleWithInheritance("Heading2")
+			_ = m.GetHeadingStyles()
+		}
 	case "AddParagraph":
 		doc.AddParagraph(tok)
 	case "AddHeader":
@@ -119,20 +176,20 @@ func runDefsStep(d **document.Document, op Op, i int) string {
 	case "SetStyle":
 		doc.AddParagraph(tok).SetStyle(op.Str("id"))
 	case "AddStyle":
-		id, v := op.Str("id"), op.Str("v")
+		id, v, on := op.Str("id"), op.Str("v"), op.Str("on")
 		switch op.Str("via") {
 		case "CreateCustomStyle":
-			st := sm.CreateCustomStyle(id, id+" name", defsStyleType(id), "Normal")
+			st := sm.CreateCustomStyle(id, id+" name", defsStyleType(id), on)
 			st.RunPr = &style.RunProperties{FontSize: &style.FontSize{Val: defsSz[v]}}
 		case "CreateQuickStyle":
 			_, err := style.NewQuickStyleAPI(sm).CreateQuickStyle(style.QuickStyleConfig{
-				ID: id, Name: id + " name", Type: defsStyleType(id), BasedOn: "Normal",
+				ID: id, Name: id + " name", Type: defsStyleType(id), BasedOn: on,
 				RunConfig: &style.QuickRunConfig{FontSize: defsPt[v]},
 			})
 			return errRet(err)
 		default:
 			sm.AddStyle(&style.Style{Type: string(defsStyleType(id)), StyleID: id, CustomStyle: true,
-				Name: &style.StyleName{Val: id + " name"}, BasedOn: &style.BasedOn{Val: "Normal"},
+				Name: &style.StyleName{Val: id + " name"}, BasedOn: &style.BasedOn{Val: on},
 				RunPr: &style.RunProperties{FontSize: &style.FontSize{Val: defsSz[v]}}})
 		}
 	case "ModifyStyle":
@@ -211,11 +268,11 @@ func runDefsStep(d **document.Document, op Op, i int) string {
 				if len(p.Runs) == 0 {
 					return "err"
 				}
-				return errRet(doc.AddFootnoteToRun(&p.Runs[0], "text of "+tok))
+				return errRet(doc.AddFootnoteToRun(&p.Runs[0], defsNoteText(tok, i)))
 			}
-			return errRet(doc.AddFootnote("fnote"+tok, "text of "+tok))
+			return errRet(doc.AddFootnote("fnote"+tok, defsNoteText(tok, i)))
 		}
-		return errRet(doc.AddEndnote("enote"+tok, "text of "+tok))
+		return errRet(doc.AddEndnote("enote"+tok, defsNoteText(tok, i)))
 	case "RenderTemplate":
 		te := document.NewTemplateEngine()
 		if _, err := te.LoadTemplateFromDocument("t"+tok, doc); err != nil {
@@ -266,6 +323,7 @@ func defsMarkdown(kind string) string {
 
 func defsEmptyPkg() map[string]interface{} {
 	return map[string]interface{}{"ok": "none", "hasStyles": false, "styles": []string{}, "sver": []map[string]interface{}{},
+		"sbased": []map[string]interface{}{},
 		"refs": []string{}, "numrefs": []int{}, "nums": []map[string]interface{}{}, "abss": []int{},
 		"noterefs": []map[string]interface{}{}, "notes": []map[string]interface{}{}}
 }
@@ -295,15 +353,21 @@ func defsSave(d *document.Document, how string) ([]byte, string) {
 	return b, ""
 }
 
-func runDefsVariant(c Case, emit Emitter, everyStep bool) {
+// Variants of executing one behaviour:
+//
+//	A  saving where the behaviour says so and once at the end; the in-memory document is projected after every step
+//	B  saving after every step; projected after every step
+//	C  "blind": the schedule of A, but nothing reads the document between the operations (no accessor is
+//	   called by the observer; the style manager is only fetched by the style operations of the behaviour).
+//	   The in-memory fields of its events are those A observed at the same step.
+func runDefsVariant(c Case, emit Emitter, variant string, rec *[]defsMemObs) {
 	document.VerifResetGlobals()
-	doc := document.New()
-	variant := "A"
-	if everyStep {
-		variant = "B"
-	}
+	w := &defsWorld{doc: document.New()}
+	everyStep := variant == "B"
+	blind := variant == "C"
 	emit(Ev{"ev": "reset", "case": c.ID, "var": variant})
 	var last *defsMemObs
+	k := 0
 	step := func(i int, op Op) {
 		pkg := defsEmptyPkg()
 		saved := false
@@ -311,7 +375,7 @@ func runDefsVariant(c Case, emit Emitter, everyStep bool) {
 			switch op.Name() {
 			case "Save":
 				saved = true
-				b, e := defsSave(doc, op.Str("how"))
+				b, e := defsSave(w.doc, op.Str("how"))
 				if e != "" {
 					pkg["ok"] = e
 					return "ok"
@@ -320,7 +384,7 @@ func runDefsVariant(c Case, emit Emitter, everyStep bool) {
 				return "ok"
 			case "Reopen":
 				saved = true
-				b, e := defsSave(doc, "ToBytes")
+				b, e := defsSave(w.doc, "ToBytes")
 				if e != "" {
 					pkg["ok"] = e
 					return "ok"
@@ -333,24 +397,36 @@ func runDefsVariant(c Case, emit Emitter, everyStep bool) {
 				if err != nil {
 					return "err"
 				}
-				doc = nd
+				w.doc = nd
 				return "ok"
 			}
-			return runDefsStep(&doc, op, i)
+			return runDefsStep(w, op, i)
 		})
 		var m defsMemObs
-		prev := last
-		if op.Name() != "Save" {
-			prev = nil
+		if blind {
+			if rec != nil && k < len(*rec) {
+				m = (*rec)[k]
+			} else {
+				m = defsMem(nil, nil)
+			}
+		} else {
+			prev := last
+			if op.Name() != "Save" {
+				prev = nil
+			}
+			if _, p2 := guard(func() string { m = defsMem(w.doc, prev); return "" }); p2 != "" {
+				m = defsMem(nil, nil)
+				pmsg += " | projection: " + p2
+				ret = "panic"
+			}
+			if rec != nil {
+				*rec = append(*rec, m)
+			}
 		}
-		if _, p2 := guard(func() string { m = defsMem(doc, prev); return "" }); p2 != "" {
-			m = defsMem(nil, nil)
-			pmsg += " | projection: " + p2
-			ret = "panic"
-		}
+		k++
 		last = &m
 		emit(Ev{"ev": "step", "case": c.ID, "i": i, "op": op, "ret": ret, "pmsg": pmsg, "saved": saved,
-			"reg": m.reg, "ver": m.ver, "mrefs": m.mrefs, "mnums": m.mnums, "mnotes": m.mnotes, "nsdt": m.nsdt, "pkg": pkg})
+			"reg": m.reg, "ver": m.ver, "based": m.based, "mrefs": m.mrefs, "mnums": m.mnums, "mnotes": m.mnotes, "nsdt": m.nsdt, "pkg": pkg})
 	}
 	implicit := Op{"op": "Save", "how": "ToBytes"}
 	n := len(c.Steps)
@@ -363,9 +439,16 @@ func runDefsVariant(c Case, emit Emitter, everyStep bool) {
 	}
 }
 
-// runDefs executes every behaviour twice: as generated (saving where the behaviour says so and
-// once at the end) and with a save after every step.
+// runDefs executes every behaviour three times (see runDefsVariant).
 func runDefs(c Case, emit Emitter) {
-	runDefsVariant(c, emit, false)
-	runDefsVariant(c, emit, true)
+	defsBasedIds = map[string]bool{}
+	for _, op := range c.Steps {
+		if op.Name() == "AddStyle" {
+			defsBasedIds[op.Str("id")] = true
+		}
+	}
+	var rec []defsMemObs
+	runDefsVariant(c, emit, "A", &rec)
+	runDefsVariant(c, emit, "B", nil)
+	runDefsVariant(c, emit, "C", &rec)
 }
